@@ -311,6 +311,11 @@ def run(ctx: Ctx):
     sa = sm.func("ode.py", "sort_assignments")
     ctx.check(not any(isinstance(n, ast.Try) for n in ast.walk(sa.node)) and any(isinstance(c, ast.Call) and norm(c.func).endswith("static_order") for c in ast.walk(sa.node)), "R08.c", sa.key("cycle"), "graphlib.CycleError propagates from static_order()", "sort_assignments catches exceptions around the topological sort (cyclic definitions could be accepted)", sa.where())
 
+    ctx.rule("R08.e", "an undefined name is noticed wherever it stands: the expression builder visits every child of every node (all operands, all arguments, all three / four children of the conditionals) and looks every name up in the symbol table", floor=8)
+    from .c01 import tree_walk_complete
+
+    tree_walk_complete(ctx, "R08.e")
+
     ctx.rule("R08.d", "the symbol table used to resolve expressions is built fresh for each model from its own atoms (plus the time aliases); nothing defined by an earlier model can satisfy a reference", floor=3)
     mo = sm.func("ode.py", "make_ode")
     mv_, _env = odemodel.construction(ctx, "make_ode")
@@ -391,6 +396,16 @@ def check_redefinition_guard(ctx: Ctx, rule: str):
     sd = [c for c in ast.walk(outer) if isinstance(c, ast.Call) and isinstance(c.func, ast.Attribute) and c.func.attr == "setdefault" and len(c.args) == 2 and norm(c.args[0]).endswith(".name")]
     # the same check written with get + store: `if reg.get(a.name, a) is not a: raise ... else: reg[a.name] = a`
     gets = [c for c in ast.walk(outer) if isinstance(c, ast.Call) and isinstance(c.func, ast.Attribute) and c.func.attr == "get" and len(c.args) == 2 and norm(c.args[0]).endswith(".name") and norm(c.args[0]) == norm(c.args[1]) + ".name" and norm(c.func.value) in reg_names]
+    # a registry keyed by more than the name (the name together with the component, the kind, the value ...) only sees a
+    # redefinition that repeats those too: the same name defined under another tag is then accepted twice
+    for c in ast.walk(outer):
+        if isinstance(c, ast.Call) and isinstance(c.func, ast.Attribute) and c.func.attr in ("setdefault", "get") and c.args and norm(c.func.value) in reg_names:
+            k0 = c.args[0]
+            names_in = [x for x in ast.walk(k0) if isinstance(x, ast.Attribute) and x.attr == "name"]
+            if names_in and not norm(k0).endswith(".name") and isinstance(k0, (ast.Tuple, ast.BinOp, ast.JoinedStr, ast.Call)):
+                others = sorted({norm(x) for x in ast.walk(k0) if isinstance(x, ast.Attribute) and x.attr != "name"})
+                ctx.fail(rule, tf.key("registry-key"), f"TreeToODE.ode keys the registry of first definitions by `{norm(k0)[:60]}`, not by the name alone: a second definition of the name that differs in {others or 'the rest of the key'} is not seen as a redefinition and both atoms are kept", tf.where(c))
+                return
     if not sd and gets:
         g0 = gets[0]
         reg_, atom_ = norm(g0.func.value), norm(g0.args[1])
